@@ -66,12 +66,12 @@ class _GuardOrder(Walker):
 def check(run):
     p = run.prog
     km = kinds_and_methods(p)
-    guard(run, p, km)
-    registry(run, p, km)
-    count(run, p)
-    mirrors(run, p)
-    sem(run, p, km)
-    fuzz(run, p, km)
+    run.attempt(guard, run, p, km)
+    run.attempt(registry, run, p, km)
+    run.attempt(count, run, p)
+    run.attempt(mirrors, run, p)
+    run.attempt(sem, run, p, km)
+    run.attempt(fuzz, run, p, km)
     from .common import keyorder_rule
     n = keyorder_rule(run, 'C02-KEYORDER', p,
                       [f for f in p.funcs.values() if f.rel in ('tdda/constraints/base.py', 'tdda/constraints/baseconstraints.py',
@@ -81,8 +81,8 @@ def check(run):
                       'handling of another (accumulations are order-free and allowed)')
     run.floor('C02-KEYORDER', n, 4)
     from .. import ief, triage
-    ief.run_ief(run, 'C02', [p.fn('verify_df')], triage=triage.IEF)
-    run.floor('C02-IEF', run.units['ief_functions_checked'], 80)
+    run.attempt(ief.run_ief, run, 'C02', [p.fn('verify_df')], triage=triage.IEF)
+    run.floor('C02-IEF', run.units.get('ief_functions_checked', 0), 80)
 
 
 def value_names(f):
